@@ -16,8 +16,9 @@ FOOTPRINT = ["Merge", "Add", "Flush", "Commit", "Rollback", "Delete", "SetV", "E
 def spec(chk):
     q = chk.quick
     return dict(
-        cfgs=[dict(name="merge", acts=["SetV", "Expire", "Merge"], depth=4 if q else 5, deep_depth=5 if q else 6, eoc=True,
-                   random=150 if q else 1500)],
+        cfgs=[dict(name="merge", acts=["SetV", "Expire", "Merge"], depth=3 if q else 4, deep_depth=4 if q else 5, eoc=True,
+                   random=100 if q else 1000),
+              dict(name="merge1", acts=["SetV", "Expire", "Merge"], srckeys=(1,), depth=4 if q else 5, eoc=True, random=100 if q else 1000)],
         invs=INVS, props=PROPS, footprint=FOOTPRINT,
         nontrivial=lambda frm, act: act["a"] == "Merge")
 
